@@ -138,6 +138,9 @@ class Monitor:
                  'StringType': [('maxchars', lambda dt: dt.maxchars + 1 if dt.maxchars < 1000 else 999), ('isUTF8', lambda dt: not dt.isUTF8),
                                 ('minchars', lambda dt: dt.minchars + 1 if dt.minchars < dt.maxchars else max(dt.minchars - 1, 0))],
                  'BLOBType': [('maxbytes', lambda dt: dt.maxbytes + 1), ('minbytes', lambda dt: dt.minbytes + 1 if dt.minbytes < dt.maxbytes else max(dt.minbytes - 1, 0))],
+                 # the list of optional members is a plain attribute; frappy itself replaces it (the Command decorator does,
+                 # from the defaults of the decorated function)
+                 'StructOf': [('optional', lambda dt: sorted(set(dt.members) - set(dt.optional))[:1] + list(dt.optional)[1:])],
                  'ArrayOf': [('maxlen', lambda dt: dt.maxlen + 1), ('minlen', lambda dt: dt.minlen + 1 if dt.minlen < dt.maxlen else max(dt.minlen - 1, 0))]}
 
     def check_copy(self, di, rng):
@@ -235,7 +238,7 @@ class Monitor:
                 continue
             prop, fn = rng.choice(muts)
             try:
-                if rng.random() < 0.4:
+                if cls == 'StructOf' or rng.random() < 0.4:
                     setattr(node, prop, fn(node))          # "the preferred way": plain attribute assignment
                     applied.append([list(path), f'{cls}.{prop} (assigned)'])
                 else:
